@@ -442,6 +442,15 @@ func runC16Containment(w *World, n *Node) {
 		a.reconnect = false
 		fz = append(fz, a)
 	}
+	// one more connection per run sends a fixed degenerate HTTP request, the list cycled by the
+	// seed (what the drawn garbage reaches only now and then)
+	degenerate := []string{
+		"GET /+ HTTP/1.1\r\n\r\n", "GET /%20 HTTP/1.1\r\n\r\n", "GET /+%20+ HTTP/1.1\r\nHost: x\r\n\r\n", "GET /%09 HTTP/1.0\r\n\r\n",
+		"POST / HTTP/1.1\r\nContent-Length: 1\r\n\r\n ", "POST / HTTP/1.1\r\nContent-Length: 3\r\n\r\n \t ", "POST /+ HTTP/1.1\r\nContent-Length: 0\r\n\r\n",
+		"GET / HTTP/1.1\r\n\r\n", "GET  HTTP/1.1\r\n\r\n", "GET /%zz HTTP/1.1\r\n\r\n", "GET /ping HTTP/9.9\r\n\r\n", "OPTIONS /+ HTTP/1.1\r\n\r\n",
+	}
+	dh := w.addActor(n, "127.0.0.1:50199", []Cmd{{Raw: degenerate[int(w.seed/4)%len(degenerate)], Pipe: true}})
+	dh.rawOnly, dh.keepRaw, dh.reconnect = true, true, false
 	done := func() bool { return b.done() }
 	w.RunChaos(25*80+nf*200, done)
 	if !w.failed() && !done() {
